@@ -311,7 +311,8 @@ impl CraneliftCompiler {
                         loaded
                     };
 
-                    self.set_dst(bcx, &insn, ext);
+                    // Absolute and indirect loads always target R0, whatever the dst field holds.
+                    bcx.def_var(self.registers[0], ext);
                 }
                 ebpf::LD_DW_IMM => {
                     insn_ptr += 1;
@@ -937,7 +938,8 @@ impl CraneliftCompiler {
 
                     let call = bcx.ins().call(func_ref, &[arg0, arg1, arg2, arg3, arg4]);
                     let ret = bcx.inst_results(call)[0];
-                    self.set_dst(bcx, &insn, ret);
+                    // The return value of a helper goes to R0, whatever the dst field holds.
+                    bcx.def_var(self.registers[0], ret);
                 }
                 ebpf::TAIL_CALL => unimplemented!(),
                 ebpf::EXIT => {
